@@ -172,6 +172,7 @@ PREDICATES = {
     'fisher_f_den_dof_is_1': lambda sig: _pf(sig, 1) == 1.0,
     'student_t_dof_is_1': lambda sig: _pf(sig, 0) == 1.0,
     'geometric_p_below_2p-53': lambda sig: 0.0 < (_pf(sig, 0) or 0.0) < 2.0 ** -53,
+    'dirichlet_gamma_underflow_regime': lambda sig: (sig.get('alpha_min') or 1.0) <= (0.25 if sig.get('ty') == 'f32' else 0.03),
     'poisson_lambda_ge_1e14': lambda sig: (_pf(sig, 0) or 0) >= 1e14,
 }
 
